@@ -268,6 +268,11 @@ def text_blocks_to_pandas(
     if len(unknown_categoricals):
         head = clear_known_categories(head, cols=unknown_categoricals)
 
+    if not blocks:
+        # Nothing to read (every file is empty, which pandas only accepts with
+        # ``names``): an empty frame like the one pandas returns
+        return dd.from_pandas(head.iloc[:0], npartitions=1)
+
     # Define parts
     parts = []
     colname, paths = path or (None, None)
